@@ -1,4 +1,5 @@
 import TantivyModel.Model.Merge
+import TantivyModel.Gen.MergeGuards
 /-!
 # Index sorting (C17)
 
@@ -102,6 +103,81 @@ def disjunct (desc : Bool) : List Stats → Bool
 ranges pairwise disjunct in reader order and no live document without a value -/
 def stackOk (desc : Bool) (stats : List Stats) (runs : List Run) : Bool :=
   disjunct desc stats && runs.all fun r => r.all fun x => x.1.isSome
+
+/-- `columnar::Cardinality` of the sort column of one segment -/
+inductive Card
+  | full
+  | optional
+  | multivalued
+deriving DecidableEq, Repr
+
+/-- mirrors: src/indexer/merger.rs::segment_has_live_nulls — only an `Optional` column is
+inspected; without deletes it certainly has a row without value; otherwise the alive docs are
+scanned for `first(doc) == None` -/
+def hasLiveNulls (card : Card) (keys : List SKey) (alive : List Bool) : Bool :=
+  match card with
+  | .optional => if !hasDeletes alive then true else (liveDocs keys alive).any (·.isNone)
+  | _ => false
+
+/-- the sort column of one merge source: cardinality, `first()` of every doc (deleted ones
+included), alive bitset, column statistics `(min_value, max_value)` -/
+structure SegCol where
+  card : Card
+  keys : List SKey
+  alive : List Bool
+  stats : Stats
+
+def SegCol.liveKeys (c : SegCol) : List SKey := liveDocs c.keys c.alive
+
+/-- mirrors: src/indexer/merger.rs::is_disjunct_and_sorted_on_sort_property (numeric sort
+field): stack iff the value ranges are disjunct in reader order and no reader has a live doc
+without value -/
+def stackDecision (desc : Bool) (cs : List SegCol) : Bool :=
+  disjunct desc (cs.map (·.stats)) && !(cs.any fun c => hasLiveNulls c.card c.keys c.alive)
+
+/-- the decision as far as the current source is known to have the mirrored shape (guards
+extracted into `Gen/MergeGuards`): `none` = the scan or the decision was edited, no prediction -/
+def stackDecisionG (desc : Bool) (cs : List SegCol) : Option Bool :=
+  if Gen.LIVE_NULLS_SCAN_SHAPE = 1 ∧ Gen.STACK_DECISION_SHAPE = 1 then some (stackDecision desc cs)
+  else none
+
+/-- what the columnar format guarantees about a column of the given cardinality: `Full` = every
+row has a value; `Optional` = some row has none (otherwise the writer would have chosen `Full`);
+`Multivalued` guarantees nothing about rows without value -/
+def CardOk (c : SegCol) : Prop :=
+  match c.card with
+  | .full => ∀ k ∈ c.keys, k.isSome = true
+  | .optional => ∃ k ∈ c.keys, k = none
+  | .multivalued => True
+
+/-- column statistics cover every stored value (of deleted docs too) -/
+def StatsOk (c : SegCol) : Prop := ∀ k ∈ c.keys, ∀ v, k = some v → c.stats.1 ≤ v ∧ v ≤ c.stats.2
+
+/-- Key sequences (doc-id order) of every segment a sorted index can come to hold, whatever the
+history: a FRESH segment is written in `sort_order`; deletes only clear alive bits and a merge
+writes the live docs only (`live`); a merge is either the k-way merge of its sources' live docs
+(`kway`) or — when the decision procedure says so and the columns are `Full`/`Optional` with
+statistics covering their values — the plain stacking of the readers (`stack`). Merged segments
+are sources of later merges. -/
+inductive ReachableKeys (desc : Bool) : List SKey → Prop
+  | fresh (keys : List SKey) : ReachableKeys desc ((sortOrder keys desc).filterMap (keys[·]?))
+  | live (ks : List SKey) (alive : List Bool) : ReachableKeys desc ks →
+      ReachableKeys desc (liveDocs ks alive)
+  | kway (runs : List Run) : (∀ r ∈ runs, ReachableKeys desc (r.map (·.1))) →
+      ReachableKeys desc ((kmerge desc runs).map (·.1))
+  | stack (cs : List SegCol) : (∀ c ∈ cs, ReachableKeys desc c.keys) →
+      (∀ c ∈ cs, c.keys.length = c.alive.length) → (∀ c ∈ cs, CardOk c) →
+      (∀ c ∈ cs, c.card ≠ .multivalued) → (∀ c ∈ cs, StatsOk c) → (∀ c ∈ cs, c.liveKeys ≠ []) →
+      stackDecisionG desc cs = some true →
+      ReachableKeys desc ((cs.map SegCol.liveKeys).flatten)
+
+/-- mirrors: columnar `compute_merged_term_ord_mapping` as used by
+`merger.rs::StrBytesSortFieldAccessor::remapped_term_ord` (str / bytes sort fields): the merged
+dictionary is the sorted, duplicate-free union of the segments' dictionaries; a term's merged
+ordinal is its position in it. Segment-local ordinals are positions in the segment's own sorted
+dictionary, so `remapped_term_ord(doc) = mergedOrd dicts (dict_i[local_ord])`. -/
+def mergedDict (dicts : List (List Key)) : List Key := keyUnion dicts
+def mergedOrd (dicts : List (List Key)) (k : Key) : Nat := (mergedDict dicts).idxOf k
 
 /-- `sort_readers_by_min_sort_field`: stable sort of the readers by `min_value` -/
 def sortReaders {β} (desc : Bool) (rs : List (Stats × β)) : List (Stats × β) :=
